@@ -68,6 +68,20 @@ def ali_ver(m):
     return int(m.get('v', '-1'))
 
 
+def mk_cfg(v):
+    """session config carrying the same version; version 0 is the EMPTY map"""
+    return immutables.Map() if v == 0 else immutables.Map({'v': v})
+
+
+def cfg_ver(m):
+    return m.get('v', 0)
+
+
+def seen_of(tx):
+    a, c = ali_ver(tx.get_modaliases()), cfg_ver(tx.get_session_config())
+    return (sch_ver(tx.get_user_schema()), a if a == c else f'{a}!cfg{c}')
+
+
 EMPTY = s_schema.EMPTY_SCHEMA
 
 
@@ -87,6 +101,7 @@ class Unit:
         self.tx_commit = self.tx_rollback = False
         self.tx_savepoint_rollback = self.tx_savepoint_declare = False
         self.seen = None
+        self.config = None
 
 
 def _fake_config_val(ctx, name):
@@ -121,7 +136,7 @@ def compile_one(ctx, st):
     """one statement: the part of _try_compile_ast/_compile_dispatch_ql that matters here"""
     tx = ctx.state.current_tx()
     u = Unit(st)
-    u.seen = (sch_ver(tx.get_user_schema()), ali_ver(tx.get_modaliases()))
+    u.seen = seen_of(tx)
     ql = ql_of(st)
     if ql is not None:
         comp = C._compile_ql_transaction(ctx, ql)          # REAL
@@ -150,6 +165,9 @@ def compile_one(ctx, st):
         al = tx.get_modaliases().set('v', arg)
         tx.update_modaliases(al)
         u.modaliases = al
+        # CONFIGURE SESSION ...: update_session_config + config ops applied by the server
+        tx.update_session_config(mk_cfg(int(arg)))
+        u.config = mk_cfg(int(arg))
     elif k == 'DD':    # DDL: update_schema with the new user schema; unit.user_schema
         new = mk_schema(int(arg))
         tx.update_schema(s_schema.ChainedSchema(EMPTY, new, tx.get_global_schema()))
@@ -192,9 +210,10 @@ class Request:
     branch_name = None
     session_config = None
 
-    def __init__(self, source, modaliases):
+    def __init__(self, source, modaliases, session_config):
         self.source = source
         self.modaliases = modaliases
+        self.session_config = session_config
 
     def get_cache_key(self):
         return None
@@ -365,6 +384,7 @@ class PG:
 class DbView:
     def __init__(self, sch, ali):
         self._modaliases = mk_ali(ali)
+        self._config = mk_cfg(ali)
         self._db_user_schema = mk_schema(sch)          # the database's committed schema
         self._last_comp_state = None
         self._last_comp_state_id = 0
@@ -374,6 +394,7 @@ class DbView:
         self._txid = None
         self._in_tx = False
         self._in_tx_modaliases = None
+        self._in_tx_config = None
         self._in_tx_savepoints = []
         self._in_tx_root_user_schema_pickle = None
         self._tx_error = False
@@ -393,6 +414,15 @@ class DbView:
         else:
             self._modaliases = m
 
+    def get_session_config(self):
+        return self._in_tx_config if self._in_tx else self._config
+
+    def set_session_config(self, c):
+        if self._in_tx:
+            self._in_tx_config = c
+        else:
+            self._config = c
+
     def tx_error(self):
         if self._in_tx:
             self._tx_error = True
@@ -400,6 +430,7 @@ class DbView:
     def start_tx(self):
         self._in_tx = True
         self._in_tx_modaliases = self._modaliases
+        self._in_tx_config = self._config
         self._in_tx_root_user_schema_pickle = pickle.dumps(self._db_user_schema, -1)
 
     def start(self, unit):
@@ -418,12 +449,13 @@ class DbView:
                 self._in_tx_savepoints.pop()
         else:
             raise RuntimeError(f'savepoint {name} not found')
-        _, spid, modaliases = self._in_tx_savepoints[-1]
+        _, spid, (modaliases, config) = self._in_tx_savepoints[-1]
         self._txid = spid
         self.set_modaliases(modaliases)
+        self.set_session_config(config)
 
     def declare_savepoint(self, name, spid):
-        self._in_tx_savepoints.append((name, spid, self.get_modaliases()))
+        self._in_tx_savepoints.append((name, spid, (self.get_modaliases(), self.get_session_config())))
 
     def abort_tx(self):
         self._reset_tx_state()
@@ -434,8 +466,11 @@ class DbView:
                 self._db_user_schema = unit.user_schema
         if unit.modaliases is not None:
             self.set_modaliases(unit.modaliases)
+        if unit.config is not None:             # execute.pyx: apply_config_ops
+            self.set_session_config(unit.config)
         if unit.tx_commit:
             self._modaliases = self._in_tx_modaliases
+            self._config = self._in_tx_config
             if unit.user_schema is not None:
                 self._db_user_schema = unit.user_schema
             self._reset_tx_state()
@@ -468,7 +503,7 @@ class System:
     # dbview._compile
     def compile(self, source):
         dbv = self.dbv
-        req = Request(source, dbv.get_modaliases())
+        req = Request(source, dbv.get_modaliases(), dbv.get_session_config())
         if dbv.in_tx():
             result = self.loop.run_until_complete(self.pool.compile_in_tx(
                 'db', dbv._in_tx_root_user_schema_pickle, dbv._txid,
@@ -500,6 +535,7 @@ class System:
         dbv = self.dbv
         if cali is not None:
             dbv.set_modaliases(dbv.get_modaliases().set('v', str(cali)))
+            dbv.set_session_config(mk_cfg(cali))
         self.pool.prefer_free = reuse
         try:
             units = self.compile(body)
@@ -508,7 +544,7 @@ class System:
             return 'R'
         u = units[0]
         st = u.stmt
-        seen = 'A0.0'[1:] if st[:2] in ('RB', 'RT') else '%d.%d' % u.seen
+        seen = 'A0.0'[1:] if st[:2] in ('RB', 'RT') else '%s.%s' % u.seen
         rollbackish = u.tx_rollback or u.tx_savepoint_rollback
         if dbv.in_tx_error():
             if not rollbackish:
